@@ -4,6 +4,7 @@ import (
 	"fmt"
 	"go/token"
 	"go/types"
+	"sort"
 	"strings"
 
 	"golang.org/x/tools/go/ssa"
@@ -184,6 +185,20 @@ func (f *frame) enterLoop(b *ssa.BasicBlock, li *loopInfo, phiEntry map[*ssa.Phi
 			goal := v.trClause(env, cl)
 			v.oblige("inv-init", fmt.Sprintf("%s/inv-init#%d.%d", v.fc.Key, li.ord, cl.Ord), cl.Tags, f.reach, goal, v.pos(firstPos(b)), cl.Src)
 		}
+	}
+	// ---- the heap is closed at loop entry: what an object that exists now refers to exists now.
+	// (References loaded inside the body are only known to exist at load time; the loop frame
+	// speaks about objects older than the loop.)
+	var refArrs []string
+	for name, s := range v.arrSort {
+		if s == ArrSort(SRef, SRef) && !strings.HasPrefix(name, "G:") {
+			refArrs = append(refArrs, name)
+		}
+	}
+	sort.Strings(refArrs)
+	for _, name := range refArrs {
+		a := v.arr(f.cur, name, v.arrSort[name])
+		v.ctx.AssertRaw(fmt.Sprintf("(assert (forall ((r Ref)) (! (=> (< (birth r) %s) (< (birth (select %s r)) %s)) :pattern ((select %s r)))))", f.cur.now.S, a.S, f.cur.now.S, a.S))
 	}
 	// ---- havoc everything the loop may change
 	mods := v.loopMods[key]
